@@ -68,7 +68,9 @@ func (e *ruleSetEndpoint) readAllBlobs(ctx context.Context, bucket *blob.Bucket)
 	for {
 		obj, err := it.Next(ctx)
 		if err != nil {
-			if errors.Is(err, io.EOF) {
+			// the end of the listing is signaled by io.EOF itself. An error just wrapping it, is
+			// e.g. a connection closed by the peer, and not the end of the listing
+			if err == io.EOF { //nolint:errorlint
 				break
 			}
 
